@@ -54,4 +54,55 @@ theorem monitor_src (codes : List (Option Int)) (closed : Bool) :
   have h := pass_spec codes false closed false
   refine ⟨by simpa using h.1, h.2.1, fun hc => by rw [h.2.2, hc]; rfl⟩
 
+
+/-! ### `parallel_merging`: the round structure as translated from the source is the model's `mergeRound` -/
+
+theorem survivors_succ2 (n : Nat) : Src.survivors (n + 2) = 0 :: (Src.survivors n).map (· + 2) := by
+  unfold Src.survivors
+  have : (n + 2 - 0 + 2 - 1) / 2 = (n - 0 + 2 - 1) / 2 + 1 := by omega
+  rw [this, List.range_succ_eq_map]
+  simp [List.map_map, Function.comp_def]
+  intro a _
+  omega
+
+theorem mergePairs_succ2 (n : Nat) : Src.mergePairs (n + 2) = (0, 1) :: (Src.mergePairs n).map (fun p => (p.1 + 2, p.2 + 2)) := by
+  unfold Src.mergePairs
+  have : (n + 2) / 2 = n / 2 + 1 := by omega
+  rw [this, List.range_succ_eq_map]
+  simp [List.map_map, Function.comp_def]
+  intro a _
+  omega
+
+/-- one round of `parallel_merging` over the list `l` of sketches: position `j` of the next round holds `merge l[2j] l[2j+1]` when the
+    survivor `2j` has a right neighbour, and the unmerged last sketch otherwise — the model's `mergeRound` (no sketch is dropped) -/
+theorem mergeRound_src {S : Type} (merge : S → S → S) (d : S) : ∀ (l : List S),
+    mergeRound merge l = (Src.survivors l.length).map
+      (fun j => if j + 1 < l.length then merge (l.getD j d) (l.getD (j + 1) d) else l.getD j d)
+  | [] => by simp [mergeRound, Src.survivors]
+  | [a] => by simp [mergeRound, Src.survivors]
+  | a :: b :: rest => by
+    rw [mergeRound, mergeRound_src merge d rest]
+    simp only [List.length_cons, survivors_succ2, List.map_cons, List.map_map]
+    congr 1
+    · simp
+      intro j _
+      by_cases h : j + 1 < rest.length
+      · have h' : j + 2 < rest.length + 1 := by omega
+        rw [if_pos h, if_pos h']
+      · have h' : ¬ (j + 2 < rest.length + 1) := by omega
+        rw [if_neg h, if_neg h']
+
+/-- the pairs handed to `_merge_worker` are exactly (survivor, its right neighbour) for every survivor that has one -/
+theorem mergePairs_src : ∀ (n : Nat), Src.mergePairs n = ((Src.survivors n).filter (fun j => decide (j + 1 < n))).map (fun j => (j, j + 1))
+  | 0 => by simp [Src.mergePairs, Src.survivors]
+  | 1 => by simp [Src.mergePairs, Src.survivors]
+  | n + 2 => by
+    rw [mergePairs_succ2, survivors_succ2, mergePairs_src n]
+    simp [List.filter_map, List.map_map, Function.comp_def]
+    congr 1
+    apply List.filter_congr
+    intro x _
+    simp
+    omega
+
 end Sketchnu.SrcPar
